@@ -718,7 +718,7 @@ func c20Do(w *c20World, kind string, opseed int, msg []byte) (out []byte) {
 		if opseed&3 == 3 && w.ekuLeaf != nil {
 			leaf = w.ekuLeaf
 		}
-		if opseed&7 == 4 && w.ncLeaf != nil {
+		if opseed&3 == 0 && w.ncLeaf != nil {
 			leaf = w.ncLeaf // its chain goes through name-constraint matching
 		}
 		chains, err := leaf.Verify(opts)
